@@ -283,6 +283,8 @@ pub struct RunResult {
     /// (tid, index in thread, canonical reply)
     pub replies: Vec<(usize, usize, String)>,
     pub final_state: String,
+    /// every write that reached the store, per key, in order
+    pub store_log: String,
     pub trace: Vec<Ev>,
     /// Preempt scheduler: number of switch points of the first thread that were counted
     pub points: usize,
@@ -291,6 +293,10 @@ pub struct RunResult {
 }
 
 struct World {
+    /// the signed invoices of the `invoice x` requests
+    invoices: Vec<lightning_signer::invoice::Invoice>,
+    /// the harness-side store (what a restart would read back)
+    store: Arc<TrackingPersister>,
     node_ctx: TestNodeContext,
     chans: Vec<TestChannelContext>,
     /// prepared commitment 1 with counterparty signatures, per channel
@@ -335,17 +341,28 @@ fn funding_tx(nn: usize) -> bitcoin::Transaction {
 }
 
 /// add a block with the given transactions to the node's tracker (caller = the block source)
-fn add_block_with(w_node: &Arc<Node>, ctr: &std::sync::atomic::AtomicU32, txs: Vec<bitcoin::Transaction>) -> (bitcoin::Block, String) {
+fn add_block_with(
+    w_node: &Arc<Node>,
+    txs: Vec<bitcoin::Transaction>,
+    book: Option<&std::sync::Mutex<Vec<bitcoin::Block>>>,
+) -> (bitcoin::Block, String) {
     use lightning_signer::txoo::proof::TxoProof;
-    let n = ctr.fetch_add(1, std::sync::atomic::Ordering::SeqCst);
     let mut tracker = w_node.get_tracker();
-    let mut all = vec![coinbase(n)];
+    // everything the block source decides (coinbase tag, bookkeeping of added blocks) happens while it
+    // holds the tracker, as one step with the chain update: the harness adds no shared state of its own
+    // whose order could differ from the chain's
+    let h = tracker.height();
+    let mut all = vec![coinbase(h + 1)];
     all.extend(txs);
     let block = make_block(tracker.tip().0, all);
     let tip = tracker.tip().clone();
-    let h = tracker.height();
     let proof = TxoProof::prove_unchecked(&block, &tip.1, h + 1);
     let r = tracker.add_block(block.header, proof);
+    if r.is_ok() {
+        if let Some(b) = book {
+            b.lock().unwrap().push(block.clone());
+        }
+    }
     (block, match r { Ok(()) => "ok".into(), Err(e) => format!("err:{:?}", e) })
 }
 
@@ -354,12 +371,43 @@ fn add_block_with(w_node: &Arc<Node>, ctr: &std::sync::atomic::AtomicU32, txs: V
 /// `new_channel` shows up as the "channel was in storage but not in memory" panic of the node).
 pub struct TrackingPersister {
     channels: std::sync::Mutex<BTreeSet<Vec<u8>>>,
+    /// the writes per stored key, in the order they reached the store (key: node / allowlist /
+    /// tracker / chan:<oid>); the last one is what a restart would read back
+    writes: std::sync::Mutex<BTreeMap<String, Vec<String>>>,
+}
+
+impl TrackingPersister {
+    fn record(&self, key: String, rec: String) {
+        self.writes.lock().unwrap().entry(key).or_default().push(rec);
+    }
+    /// canonical stored state: the last record of every key
+    pub fn stored(&self) -> String {
+        let w = self.writes.lock().unwrap();
+        w.iter().map(|(k, v)| format!("{}={}", k, v.last().cloned().unwrap_or_default())).collect::<Vec<_>>().join("; ")
+    }
+    /// the whole write log (for violation descriptions)
+    pub fn log(&self) -> String {
+        let w = self.writes.lock().unwrap();
+        w.iter().map(|(k, v)| format!("{}: {}", k, v.join(" -> "))).collect::<Vec<_>>().join(" | ")
+    }
+}
+
+fn node_record(state: &lightning_signer::node::NodeState) -> String {
+    let mut inv: Vec<String> = state.invoices.keys().map(|h| hex::encode(&h.0[..2])).collect();
+    inv.sort();
+    let mut pay: Vec<String> = state
+        .payments
+        .iter()
+        .map(|(h, p)| format!("{}:out{}:in{}", hex::encode(&h.0[..2]), p.outgoing.values().sum::<u64>(), p.incoming.values().sum::<u64>()))
+        .collect();
+    pay.sort();
+    format!("hwm{} inv{:?} pay{:?}", state.dbid_high_water_mark, inv, pay)
 }
 
 impl lightning_signer::SendSync for TrackingPersister {}
 
 mod tracking {
-    use super::TrackingPersister;
+    use super::{node_record, TrackingPersister};
     use lightning_signer::bitcoin::secp256k1::PublicKey;
     use lightning_signer::chain::tracker::ChainTracker;
     use lightning_signer::channel::{Channel, ChannelId, ChannelStub};
@@ -372,9 +420,11 @@ mod tracking {
     #[allow(unused_variables)]
     impl Persist for TrackingPersister {
         fn new_node(&self, node_id: &PublicKey, config: &NodeConfig, state: &NodeState) -> Result<(), Error> {
+            self.record("node".into(), node_record(state));
             Ok(())
         }
         fn update_node(&self, node_id: &PublicKey, state: &NodeState) -> Result<(), Error> {
+            self.record("node".into(), node_record(state));
             Ok(())
         }
         fn delete_node(&self, node_id: &PublicKey) -> Result<(), Error> {
@@ -382,6 +432,7 @@ mod tracking {
         }
         fn new_channel(&self, node_id: &PublicKey, stub: &ChannelStub) -> Result<(), Error> {
             if self.channels.lock().unwrap().insert(stub.id0.as_slice().to_vec()) {
+                self.record(format!("chan:{}", stub.id0.oid()), "stub".into());
                 Ok(())
             } else {
                 Err(Error::AlreadyExists(format!("channel {}", stub.id0)))
@@ -389,12 +440,14 @@ mod tracking {
         }
         fn delete_channel(&self, node_id: &PublicKey, channel_id: &ChannelId) -> Result<(), Error> {
             self.channels.lock().unwrap().remove(channel_id.as_slice());
+            self.record(format!("chan:{}", channel_id.oid()), "deleted".into());
             Ok(())
         }
         fn new_tracker(&self, node_id: &PublicKey, tracker: &ChainTracker<ChainMonitor>) -> Result<(), Error> {
             Ok(())
         }
         fn update_tracker(&self, node_id: &PublicKey, tracker: &ChainTracker<ChainMonitor>) -> Result<(), Error> {
+            self.record("tracker".into(), format!("h{} listeners{}", tracker.height(), tracker.listeners.len()));
             Ok(())
         }
         fn get_tracker(
@@ -405,6 +458,14 @@ mod tracking {
             Err(Error::Internal("get_tracker unimplemented".to_string()))
         }
         fn update_channel(&self, node_id: &PublicKey, channel: &Channel) -> Result<(), Error> {
+            let es = &channel.enforcement_state;
+            self.record(
+                format!("chan:{}", channel.id0.oid()),
+                format!(
+                    "ready h{} c{} r{} closed{}",
+                    es.next_holder_commit_num, es.next_counterparty_commit_num, es.next_counterparty_revoke_num, es.channel_closed
+                ),
+            );
             Ok(())
         }
         fn get_channel(&self, node_id: &PublicKey, channel_id: &ChannelId) -> Result<model::ChannelEntry, Error> {
@@ -414,6 +475,7 @@ mod tracking {
             Ok(Vec::new())
         }
         fn update_node_allowlist(&self, node_id: &PublicKey, allowlist: Vec<String>) -> Result<(), Error> {
+            self.record("allowlist".into(), format!("n{}", allowlist.len()));
             Ok(())
         }
         fn get_node_allowlist(&self, node_id: &PublicKey) -> Result<Vec<String>, Error> {
@@ -437,22 +499,26 @@ const CHANNEL_VALUE: u64 = 3_000_000;
 const PAY_SAT: u64 = 50_000;
 const PAY_HASH: [u8; 32] = [0x77; 32];
 
-fn make_node_ctx() -> TestNodeContext {
+fn make_node_ctx() -> (TestNodeContext, Arc<TrackingPersister>) {
     use lightning_signer::bitcoin::secp256k1::Secp256k1;
     use lightning_signer::node::NodeServices;
     use lightning_signer::policy::simple_validator::SimpleValidatorFactory;
     use lightning_signer::util::clock::StandardClock;
     let mut seed = [0u8; 32];
     seed.copy_from_slice(&hex::decode(TEST_SEED[1]).unwrap());
+    let store = Arc::new(TrackingPersister {
+        channels: std::sync::Mutex::new(BTreeSet::new()),
+        writes: std::sync::Mutex::new(BTreeMap::new()),
+    });
     let services = NodeServices {
         validator_factory: Arc::new(SimpleValidatorFactory::new()),
         starting_time_factory: make_genesis_starting_time_factory(TEST_NODE_CONFIG.network),
-        persister: Arc::new(TrackingPersister { channels: std::sync::Mutex::new(BTreeSet::new()) }),
+        persister: store.clone(),
         clock: Arc::new(StandardClock()),
         trusted_oracle_pubkeys: vec![],
     };
     let node = Arc::new(Node::new(TEST_NODE_CONFIG, &seed, vec![], services));
-    TestNodeContext { node, secp_ctx: Secp256k1::signing_only() }
+    (TestNodeContext { node, secp_ctx: Secp256k1::signing_only() }, store)
 }
 
 /// a channel stub created through `new_channel(dbid, peer)`, with matching counterparty keys and the
@@ -467,7 +533,7 @@ fn chan_ctx_by_dbid(node_ctx: &TestNodeContext, dbid: u64) -> TestChannelContext
 }
 
 fn build_world(sc: &Scenario) -> World {
-    let node_ctx = make_node_ctx();
+    let (node_ctx, store) = make_node_ctx();
     let mut chans = Vec::new();
     let mut commits = Vec::new();
     let mut pay_commits = Vec::new();
@@ -541,14 +607,15 @@ fn build_world(sc: &Scenario) -> World {
         tracker.add_block(header, proof).expect("first block");
     }
     let coinbase_ctr = std::sync::atomic::AtomicU32::new(1);
-    let (_, r) = add_block_with(&node_ctx.node, &coinbase_ctr, (1..=sc.nchan).map(funding_tx).collect());
+    let (_, r) = add_block_with(&node_ctx.node, (1..=sc.nchan).map(funding_tx).collect(), None);
     assert_eq!(r, "ok", "funding block");
     // a wallet-to-wallet transaction for check_onchain_tx
     let mut tx_ctx = TestFundingTxContext::new();
     tx_ctx.add_wallet_input(&node_ctx, SpendType::P2wpkh, 1, 1_000_000);
     tx_ctx.add_wallet_output(&node_ctx, SpendType::P2wpkh, 2, 999_000);
     let tx = tx_ctx.to_tx();
-    World { node_ctx, chans, commits, pay_commits, onchain: (tx, tx_ctx), stub, blocks: std::sync::Mutex::new(Vec::new()), coinbase_ctr }
+    let invoices = (0..3u8).map(|x| make_current_test_invoice(x, 10_000 + x as u64)).collect();
+    World { invoices, store, node_ctx, chans, commits, pay_commits, onchain: (tx, tx_ctx), stub, blocks: std::sync::Mutex::new(Vec::new()), coinbase_ctr }
 }
 
 fn status_str<T>(r: &Result<T, lightning_signer::util::status::Status>) -> String {
@@ -723,7 +790,10 @@ fn do_req(w: &World, r: &Req) -> String {
             }
         }
         Req::Invoice(x) => {
-            let r = node.add_invoice(make_current_test_invoice(*x, 10_000 + *x as u64));
+            // the invoice object is built once per world: two `invoice x` requests of one run present
+            // the same signed invoice (an invoice built at request time would carry the wall-clock
+            // second and two requests straddling a second boundary would be different invoices)
+            let r = node.add_invoice(w.invoices[*x as usize % w.invoices.len()].clone());
             match r {
                 Ok(b) => format!("ok {}", b),
                 Err(e) => format!("err:{:?}:{}", e.code(), e.message()),
@@ -773,20 +843,17 @@ fn do_req(w: &World, r: &Req) -> String {
             None => "nochan".into(),
             Some(cc) => {
                 let spend = mk_tx(vec![cc.setup.funding_outpoint], 5000 + *c as u32);
-                let (block, r) = add_block_with(node, &w.coinbase_ctr, vec![spend]);
-                if r == "ok" {
-                    w.blocks.lock().unwrap().push(block);
-                }
+                let (_, r) = add_block_with(node, vec![spend], Some(&w.blocks));
                 r
             }
         },
         Req::RmBlock => {
             use lightning_signer::txoo::proof::TxoProof;
+            let mut tracker = node.get_tracker();
             let block = w.blocks.lock().unwrap().pop();
             match block {
                 None => "noblock".into(),
                 Some(block) => {
-                    let mut tracker = node.get_tracker();
                     if tracker.headers().is_empty() {
                         return "noprev".into();
                     }
@@ -869,6 +936,8 @@ fn digest(w: &World) -> String {
         let t = node.get_tracker();
         s += &format!(" tracker h={} listeners={}", t.height(), t.listeners.len());
     }
+    // the persisted state: last record written per key
+    s += &format!(" STORE[{}]", w.store.stored());
     s
 }
 
@@ -1019,6 +1088,7 @@ pub fn run_scenario(sc: &Scenario, sched: Sched, seed: u64, order: Option<Vec<us
         }
         let d = digest(&w);
         let mut g = sh2.lock().unwrap();
+        g.store_log = w.store.log();
         g.final_state = d;
         g.completed = true;
     });
@@ -1241,6 +1311,14 @@ pub fn describe_deadlock(sc: &Scenario, trace: &[Ev], replies: &[(usize, usize, 
         format!("deadlock-among-ordered-requests:{}", cls)
     };
     (format!("{} (requests: {})", parts.join(" "), via), kind)
+}
+
+fn mem_part(digest: &str) -> &str {
+    digest.split(" STORE[").next().unwrap_or(digest)
+}
+
+fn store_part(digest: &str) -> &str {
+    digest.split(" STORE[").nth(1).unwrap_or("")
 }
 
 fn pay_part(digest: &str) -> &str {
@@ -1566,6 +1644,13 @@ impl C20 {
                         "forgotten-channel-resurrected:setup_channel".into()
                     } else if reuse {
                         "id-reuse:new_channel-after-forget".into()
+                    } else if serial.iter().any(|(rep, fin, ok)| *ok && rep == mine.0 && mem_part(fin) == mem_part(mine.1)) {
+                        // replies and in-memory state are those of a sequential order, the STORED state
+                        // (what a restart reads back) is not the one of that order
+                        "non-serializable-outcome:store".into()
+                    } else if serial.iter().any(|(_, fin, ok)| *ok && fin == mine.1) {
+                        // the final state is that of a sequential order, the replies are not
+                        "non-serializable-outcome:replies".into()
                     } else if !serial.iter().any(|(_, fin, ok)| *ok && pay_part(fin) == pay_part(&r.final_state)) {
                         // the in-flight payment totals themselves equal no sequential order
                         "non-serializable-outcome:payments".into()
@@ -1573,8 +1658,8 @@ impl C20 {
                         "non-serializable-outcome".into()
                     },
                     desc: format!(
-                        "concurrent outcome equals none of the {} sequential orders: replies {:?} final {}; first sequential: {:?}",
-                        serial.len(), r.replies, r.final_state, serial.first()
+                        "concurrent outcome equals none of the {} sequential orders: replies {:?} final {}; store writes: {}; first sequential: {:?}",
+                        serial.len(), r.replies, r.final_state, r.store_log, serial.first()
                     ),
                     at: n_ops - 1,
                 });
@@ -1770,6 +1855,15 @@ impl Group for C20 {
             p(1, true, Req::SetupChan, Req::NewChan(50)),
             p(1, true, Req::SetupChan, Req::Forget(9)),
             p(1, true, Req::SetupChan, Req::AddBlock(0)),
+            // a channel created and forgotten / set up concurrently (memory and store must agree with one order)
+            p(1, false, Req::NewChan(50), Req::ForgetDb(50)),
+            p(1, false, Req::NewChan(50), Req::Heartbeat),
+            // read-only requests against a block: the reply must be one a sequential order gives
+            p(1, false, Req::Heartbeat, Req::AddBlock(0)),
+            p(1, false, Req::Balance, Req::AddBlock(0)),
+            p(1, false, Req::Chaninfo, Req::AddBlock(0)),
+            p(1, false, Req::Heartbeat, Req::Validate(0)),
+            p(1, false, Req::Balance, Req::PayCp(0)),
             p(1, true, Req::SetupChan, Req::Heartbeat),
             p(1, false, Req::Heartbeat, Req::Forget(0)),
             p(1, false, Req::Onchain, Req::Onchain),
